@@ -3,6 +3,9 @@
 import json, os
 root = os.path.dirname(os.path.dirname(os.path.abspath(__file__)))
 claims = json.load(open(os.path.join(root, "tools", "claims.json")))
+import subprocess
+_log = subprocess.run(["git", "-C", "/repo", "log", "--format=%h %s"], capture_output=True, text=True).stdout.splitlines()
+claims["_hook_commits"] = [l.split()[0] for l in _log if len(l.split()) > 1 and l.split()[1] == "verif:"]
 props = [json.loads(l)["id"] for l in open(os.path.join(root, "properties.jsonl"))]
 checks, na = [], []
 for pid in props:
